@@ -139,23 +139,22 @@ def _share_coverage(ctx: Ctx, case: dict):
             ctx.count("shares:acyclic-with-multi-share-agent")
 
 
-def _shrink_oracle(case: dict) -> dict:
-    """Smallest variant on which the Python oracle still fails (same first word of its message)."""
-    def says(c) -> Optional[str]:
-        try:
-            impl, cap = rig.run_impl(c)
-            return rig.oracle(c, impl, cap)
-        except Exception:
-            return None
-    base = says(case)
-    if base is None:
-        return case
-    key = base.split(":")[0]
+def _oracle_kinds(c: dict) -> List[str]:
+    impl, cap = rig.run_impl(c)
+    return [m.split(":")[0][:40] for m in rig.oracle_all(c, impl, cap)]
+
+
+def _shrink_oracle(case: dict, key: str) -> dict:
+    """Smallest variant on which the Python oracle still reports a failure of kind `key`."""
     cur = case
 
     def fails(c) -> bool:
-        m = says(c)
-        return m is not None and m.split(":")[0] == key
+        try:
+            return key in _oracle_kinds(c)
+        except Exception:
+            return False
+    if not fails(case):
+        return case
     if len(cur["steps"]) >= 2:
         steps = shrink_ops(cur["steps"], lambda ops: fails(dict(cur, steps=ops)), budget=40)
         if fails(dict(cur, steps=steps)):
@@ -184,8 +183,8 @@ def replay(rec: dict) -> bool:
         lake_build([EXE])
     r = rec["replay"]
     if r.get("family") == "oracle":
-        impl, capture = rig.run_impl(r["case"])
-        return rig.oracle(r["case"], impl, capture) is None
+        kinds = _oracle_kinds(r["case"])
+        return (r["kind"] not in kinds) if "kind" in r else not kinds
     ok, *_ = _diff_case(r["case"])
     return ok
 
@@ -284,7 +283,7 @@ def run(ctx: Ctx):
     impl_all, lines_all, bounds, captures = [], [], [], []
     for name, case in cases:
         impl, capture = rig.run_impl(case)
-        capture["oracle"] = rig.oracle(case, impl, capture)  # the property's own oracle, on the implementation only
+        capture["oracle"] = rig.oracle_all(case, impl, capture)  # the property's own oracle, on the implementation only
         capture.pop("game", None)
         lines = rig.model_lines(case, capture)
         bounds.append((len(lines_all), len(lines)))
@@ -293,7 +292,8 @@ def run(ctx: Ctx):
         captures.append(capture)
     model_all = run_driver(EXE, lines_all)
     agree = 0
-    reported = 0
+    oracle_kinds: set = set()   # each kind of oracle failure is reported once (first case that shows it, shrunk)
+    diff_lines: Dict[str, int] = {}  # model-vs-implementation disagreements: at most 2 per answer kind (load / step / mem)
     for (name, case), impl, (st, ln), capture in zip(cases, impl_all, bounds, captures):
         lines = lines_all[st:st + ln]
         out = model_all[st:st + ln]
@@ -320,23 +320,29 @@ def run(ctx: Ctx):
             ctx.count("graph:" + model[0].split()[0])
             nontrivial = len(case["graph"]) > 1
         ctx.case(case, nontrivial)
-        orc = capture["oracle"]
-        if orc is not None and reported < 5:
-            reported += 1
-            ocase = _shrink_oracle(case) if case["family"] == "game" else case
-            ctx.violation({"kind": "oracle", "what": orc.split(":")[0][:40]}, "C10 oracle fails on the implementation: " + orc,
-                          {"family": "oracle", "case": ocase, "impl": impl, "oracle_says": orc, "from": name})
+        for orc in capture["oracle"]:
+            kind = orc.split(":")[0][:40]
+            if kind in oracle_kinds or len(oracle_kinds) >= 8:
+                continue
+            oracle_kinds.add(kind)
+            ocase = _shrink_oracle(case, kind) if case["family"] == "game" else case
+            ctx.violation({"kind": "oracle", "what": kind}, "C10 oracle fails on the implementation: " + orc,
+                          {"family": "oracle", "case": ocase, "kind": kind, "oracle_says": orc, "from": name})
         if rig.first_diff(case, impl, model, capture) < 0:
             agree += 1
+            if impl != model:
+                ctx.count("rounding:floats-differ-from-exact-sum-within-bound")
             if fam in ("rich", "exh4", "big", "env"):
                 ctx.sample({"case": name, "lines": lines[:10], "answers": model[:3]}, cap=4)
             continue
-        if reported >= 5:
+        i0 = rig.first_diff(case, impl, model, capture)
+        lk = "graph" if case["family"] == "graph" else ("load" if i0 == 0 else ("step" if i0 % 2 == 1 else "mem"))
+        if diff_lines.get(lk, 0) >= 2:
             continue
-        reported += 1
+        diff_lines[lk] = diff_lines.get(lk, 0) + 1
         if case["family"] == "env":
             # re-run what the real pipeline produced through the synthetic surface: if it still disagrees it can be shrunk
-            synth = {"family": "game", "agents": case["agents"], "steps": case["steps"]}
+            synth = {"family": "game", "agents": case["agents"], "steps": case["steps"], "exact": case.get("exact", True)}
             if not _diff_case(synth)[0]:
                 case = synth
         small = _shrink(case)
